@@ -108,4 +108,36 @@ m1 1001 1.0
 m2 1001 1.0
 """
 
-CORPUS = [('A', A), ('B', B), ('C', C), ('D', D), ('E', E), ('F', F)]
+G = """corpus G: one universe filled twice by translations that differ by one unit
+1 0 -1 fill=2 (0 0 -1) imp:n=1
+2 0 -2 fill=2 (0 0 -2) imp:n=1
+3 1 -1.0 1 2 -3 imp:n=1
+4 0 3 imp:n=0
+10 1 -1.0 -10 u=2 imp:n=1
+11 2 -2.0 10 u=2 imp:n=1
+
+1 s 3 0 0 1.5
+2 s -3 0 0 1.5
+3 so 9
+10 pz 0.25
+
+m1 1001 1.0
+m2 1001 1.0
+"""
+
+H = """corpus H: a filler bounded by the same surface and sign as the cell it fills
+1 0 -10 fill=2 imp:n=1
+2 1 -1.0 10 -11 imp:n=1
+3 0 11 imp:n=0
+20 1 -1.0 20 -10 u=2 imp:n=1
+21 2 -2.0 -20 u=2 imp:n=1
+
+10 so 2
+11 so 6
+20 px 0.25
+
+m1 1001 1.0
+m2 1001 1.0
+"""
+
+CORPUS = [('A', A), ('B', B), ('C', C), ('D', D), ('E', E), ('F', F), ('G', G), ('H', H)]
